@@ -272,16 +272,26 @@ def r5(ck):
         if fn.crate != "libpatch":
             continue
         sws = pt.discr_switches(fn, lambda e, rv: (rv.get("adt") or "").endswith("patch::PatchDirection"))
+        branches = []      # (block of the test, Forward edge, Revert edge)
         for sw in sws:
             fe, re_ = sw["edges"].get("Forward"), sw["edges"].get("Revert")
-            if not fe or not re_:
+            if fe and re_:
+                branches.append((sw["bb"], fe, re_))
+        # the same decision spelled `direction == Forward` / `!= Revert` ...
+        for g in guards.find_bool_guards(fn, lambda x: isinstance(x, tuple) and x and x[0] == "call" and x[1].split("::")[-1] in ("eq", "ne") and len(x[2]) == 2):
+            pvs = [guards.promoted_value(fn, a) for a in g["expr"][2]]
+            pv = [p_ for p_ in pvs if p_ and p_[0] == "enum" and str(p_[1]).endswith("patch::PatchDirection")]
+            if not pv:
                 continue
+            is_fwd = (pv[0][2] == "Forward") == (g["expr"][1].split("::")[-1] == "eq")
+            branches.append((g["bb"], g["true_edge"] if is_fwd else g["false_edge"], g["false_edge"] if is_fwd else g["true_edge"]))
+        for sw_bb, fe, re_ in branches:
             rf = cfg.dominated_by_edge(fn, fe)
             rr = cfg.dominated_by_edge(fn, re_)
 
             def members(region):
-                names = set()
-                for b in region:
+                names = []
+                for b in sorted(region):
                     for s in fn.blocks[b]["stmts"]:
                         if s["k"] != "assign":
                             continue
@@ -295,11 +305,11 @@ def r5(ck):
                         for pl in pls:
                             for p in pl.get("p", []):
                                 if isinstance(p, dict) and "name" in p:
-                                    names.add(p["name"])
+                                    names.append(p["name"])
                     t = fn.blocks[b]["term"]
                     if t["k"] == "call":
                         c = callee_of(t)
-                        names.add((c.get("rpath") or "").split("::")[-1])
+                        names.append((c.get("rpath") or "").split("::")[-1])
                 return names
             mf, mr = members(rf), members(rr)
             for a, b in DUAL:
@@ -309,9 +319,14 @@ def r5(ck):
                     continue
                 n += 1
                 good = len(f_has) == 1 and len(r_has) == 1 and f_has != r_has
+                if not good and len(f_has) == 2 and len(r_has) == 2:
+                    # both arms build the pair (x, y): mirrored when the members come in opposite order
+                    of = [x for x in mf if x in (a, b)]
+                    orr = [x for x in mr if x in (a, b)]
+                    good = of[0] != orr[0] and of[:2] == list(reversed(orr[:2]))
                 ck.require(good, "C16-R5", "duality of %s/%s in %s" % (a, b, fn.id),
                            "the Forward arm uses %s and the Revert arm uses %s: reversed application would not mirror forward application" % (
-                               sorted(f_has), sorted(r_has)), fn.where(fn.blocks[sw["bb"]]["term"]),
+                               sorted(f_has), sorted(r_has)), fn.where(fn.blocks[sw_bb]["term"]),
                            ok_detail="Forward: %s, Revert: %s" % (sorted(f_has), sorted(r_has)))
     ck.floor("C16-R5", "dual-pair selections on PatchDirection", n, 6)
     # create/delete dispatch is mirrored in apply_internal
